@@ -98,10 +98,14 @@ def _second_opinion(mod, prop, a, seed, run, out, err):
                 notes = r2.extra["normal_forms"]
                 continue
             n1, n2 = {}, {}
+            # only instances the rule DECIDED count: a view in which the rule records "shape not recognised - not decided"
+            # (nontrivial=False) has lost sight of the construct and clears nothing
             for i in run.instances:
-                n1[i["rule"]] = n1.get(i["rule"], 0) + 1
+                if i.get("nontrivial", True):
+                    n1[i["rule"]] = n1.get(i["rule"], 0) + 1
             for i in r2.instances:
-                n2[i["rule"]] = n2.get(i["rule"], 0) + 1
+                if i.get("nontrivial", True):
+                    n2[i["rule"]] = n2.get(i["rule"], 0) + 1
             def qual(w):
                 return w.split(" ", 1)[1] if " " in w else w
 
@@ -143,10 +147,10 @@ def _second_opinion(mod, prop, a, seed, run, out, err):
 
             def covered(v):
                 fam = family(qual(v["where"]))
-                a_out = sum(1 for i in run.instances if i["rule"] == v["rule"] and qual(i["where"]) not in fam)
-                b_out = sum(1 for i in r2.instances if i["rule"] == v["rule"] and qual(i["where"]) not in fam)
-                a_in = sum(1 for i in run.instances if i["rule"] == v["rule"] and qual(i["where"]) in fam)
-                b_in = sum(1 for i in r2.instances if i["rule"] == v["rule"] and qual(i["where"]) in fam)
+                a_out = sum(1 for i in run.instances if i["rule"] == v["rule"] and i.get("nontrivial", True) and qual(i["where"]) not in fam)
+                b_out = sum(1 for i in r2.instances if i["rule"] == v["rule"] and i.get("nontrivial", True) and qual(i["where"]) not in fam)
+                a_in = sum(1 for i in run.instances if i["rule"] == v["rule"] and i.get("nontrivial", True) and qual(i["where"]) in fam)
+                b_in = sum(1 for i in r2.instances if i["rule"] == v["rule"] and i.get("nontrivial", True) and qual(i["where"]) in fam)
                 return b_out >= a_out and (b_in > 0 or a_in == 0)
 
             dropped = [v for v in run.violations if (v["rule"], v["key"]) not in bad2
